@@ -496,10 +496,13 @@ where
     let mut timeout_interval = tokio::time::interval(backend_timeout);
     let mut response_received = false;
     let mut task_empty = true;
+    // Consecutive failed connections of the pending tasks. It has to outlive a single poll,
+    // or only failures in the first poll of a connection would ever be counted.
+    let mut retry_times_opt: Option<usize> = None;
 
     future::poll_fn(
         |cx: &mut Context<'_>| -> Poll<Result<(), HandleConnErr<H::Task>>> {
-            let retry_times_opt = match retry_state_opt.take() {
+            retry_times_opt = match retry_state_opt.take() {
                 Some(RetryState {
                     retry_times,
                     tasks: mut retry_tasks,
@@ -511,7 +514,7 @@ where
                     tasks.extend(retry_tasks.drain(..));
                     Some(retry_times)
                 }
-                None => None,
+                None => retry_times_opt,
             };
 
             while let Poll::Ready(task_opt) = Pin::new(&mut task_receiver).poll_next(cx) {
@@ -606,6 +609,10 @@ where
                 };
                 task.log_event(TaskEvent::ReceivedFromBackend);
                 handler.handle_task(task, packet_res);
+                if tasks.is_empty() {
+                    // Every pending task has been answered: a later failure is not a retry of them.
+                    retry_times_opt = None;
+                }
             };
 
             if let Err(err) = read_res {
